@@ -59,3 +59,26 @@ func TestAnalyse(t *testing.T) {
 		}
 	}
 }
+
+// Sanity anchors for schemaFinding (what counts as "no usable schema at all").
+func TestSchemaFinding(t *testing.T) {
+	cases := []struct {
+		absent     bool
+		text, want string
+	}{
+		{true, "", "no-schema"}, {true, `{"type":"string","details":{"type":"string"}}`, "no-schema"},
+		{false, "", "no-schema"}, {false, " \n", "no-schema"},
+		{false, "null", "not-an-object"}, {false, "1", "not-an-object"}, {false, `"x"`, "not-an-object"}, {false, "[]", "not-an-object"}, {false, "true", "not-an-object"},
+		{false, "{", "not-json"}, {false, "nil", "not-json"}, {false, `{"type":"string","details":{"type":"string"}} x`, "not-json"},
+		{false, "{}", ""}, {false, `{"type":"string","details":{"type":"string"}}`, ""}, {false, ` {"type":"array","details":{"type":"uint8[]"}} `, "missing-items"},
+	}
+	for _, c := range cases {
+		got := ""
+		if f := schemaFinding(c.absent, c.text); f != nil {
+			got = f.class
+		}
+		if got != c.want {
+			t.Errorf("absent=%v %q: %q, want %q", c.absent, c.text, got, c.want)
+		}
+	}
+}
